@@ -270,22 +270,69 @@ fn sub_normal_eq_pred(family: &'static str, index: u64, r: &mut Rng, t: &mut Tal
     (!x.in_half_open_unit(), h)
 }
 
+/// Two fractions with huge denominators that share a large common factor: d1 = m1*g,
+/// d2 = m2*g with g in [2^30, 2^52] and m1*m2*g < 2^58, numerators inside (-d, d]. Every
+/// exact result of +, -, negation and multiplication by |k| <= 4 has numerator and denominator
+/// below 2^62, i.e. the operands are inside the quantifier ("do not overflow 64 bits after the
+/// operation") although the *product* of the denominators is far outside i64.
+fn gen_common_factor_pair(r: &mut Rng) -> ((i64, i64), (i64, i64), i64) {
+    let g: i64 = match r.below(4) {
+        0 => 1i64 << r.range(30, 52),
+        1 => 3 * (1i64 << r.range(30, 50)),
+        2 => r.range(1i64 << 30, 1i64 << 52),
+        _ => 5 * (1i64 << r.range(30, 49)) + if r.chance(0.5) { 0 } else { 5 },
+    };
+    let room = ((1i64 << 58) / g).max(1);
+    let (mut m1, mut m2) = (r.range(1, 12), r.range(1, 12));
+    while m1 * m2 > room {
+        if m1 >= m2 && m1 > 1 {
+            m1 -= 1;
+        } else if m2 > 1 {
+            m2 -= 1;
+        } else {
+            break;
+        }
+    }
+    if r.chance(0.3) {
+        m2 = m1 * 2;
+        if m1 * m2 > room {
+            m2 = m1;
+        }
+    }
+    let (d1, d2) = (m1 * g, m2 * g);
+    let num = |r: &mut Rng, d: i64| match r.below(5) {
+        0 => 1,
+        1 => d - 1,
+        2 => -d + 1,
+        _ => r.range(-d + 1, d),
+    };
+    let k = *r.pick(&[0i64, 1, -1, 2, -2, 3, 4, -4]);
+    ((num(r, d1), d1), (num(r, d2), d2), k)
+}
+
 fn sub_arith(family: &'static str, index: u64, r: &mut Rng, t: &mut Tally) -> (bool, u64) {
     let c = ctx();
-    let d1 = gen_den(r, 28);
-    let n1 = gen_num(r, d1, 40);
-    let d2 = if r.chance(0.4) { d1 } else { gen_den(r, 28) };
-    let n2 = match r.below(6) {
-        0 => -n1 + r.range(-1, 1) * d2,                         // near the negation
-        1 => (d2 - n1.rem_euclid(2 * d1).min(d2)) + r.range(-1, 1), // lands near the end 1
-        _ => gen_num(r, d2, 40),
-    };
-    let k: i64 = match r.below(6) {
-        0 => 0,
-        1 => *r.pick(&[1i64, -1, 2, -2]),
-        2 => r.range(-(1i64 << 32), 1i64 << 32),
-        3 => d1 * r.range(-3, 3) + r.range(-1, 1),
-        _ => r.range(-64, 64),
+    let (n1, d1, n2, d2, k) = if r.chance(0.12) {
+        t.add("operands:huge-denominators-with-common-factor");
+        let ((n1, d1), (n2, d2), k) = gen_common_factor_pair(r);
+        (n1, d1, n2, d2, k)
+    } else {
+        let d1 = gen_den(r, 28);
+        let n1 = gen_num(r, d1, 40);
+        let d2 = if r.chance(0.4) { d1 } else { gen_den(r, 28) };
+        let n2 = match r.below(6) {
+            0 => -n1 + r.range(-1, 1) * d2,                         // near the negation
+            1 => (d2 - n1.rem_euclid(2 * d1).min(d2)) + r.range(-1, 1), // lands near the end 1
+            _ => gen_num(r, d2, 40),
+        };
+        let k: i64 = match r.below(6) {
+            0 => 0,
+            1 => *r.pick(&[1i64, -1, 2, -2]),
+            2 => r.range(-(1i64 << 32), 1i64 << 32),
+            3 => d1 * r.range(-3, 3) + r.range(-1, 1),
+            _ => r.range(-64, 64),
+        };
+        (n1, d1, n2, d2, k)
     };
     let h = hash_str(&format!("ar:{n1}/{d1}:{n2}/{d2}:{k}"));
     let (x, y) = (Q::from_i64s(n1, d1), Q::from_i64s(n2, d2));
@@ -357,6 +404,35 @@ fn push_event(keep: bool, n: &BigInt, d: &BigInt, m: i64, rn: i64, rd: i64, raw:
     EVENTS.lock().unwrap_or_else(|e| e.into_inner()).push(s);
 }
 
+/// A fraction in (-1, 1) whose continued fraction is long: partial quotients mostly 1
+/// (Fibonacci-like, the worst case for the number of terms: ~90 for a 62-bit denominator),
+/// grown until the denominator passes `bits` bits. Also returns the denominators of its
+/// convergents (the interesting bounds).
+fn gen_long_cf(r: &mut Rng, bits: u32) -> (i64, i64, Vec<i64>) {
+    // convergents h/k of [0; a1, a2, ...]
+    let (mut h0, mut h1, mut k0, mut k1) = (1i128, 0i128, 0i128, 1i128);
+    let mut ks = vec![];
+    let limit = 1i128 << bits;
+    loop {
+        let a: i128 = match r.below(12) {
+            0 => 2,
+            1 => r.range(2, 6) as i128,
+            _ => 1,
+        };
+        let (h2, k2) = (a * h1 + h0, a * k1 + k0);
+        if k2 >= limit {
+            break;
+        }
+        h0 = h1;
+        h1 = h2;
+        k0 = k1;
+        k1 = k2;
+        ks.push(k1 as i64);
+    }
+    let sign = if r.chance(0.5) { 1 } else { -1 };
+    (sign * h1 as i64, k1 as i64, ks)
+}
+
 fn gen_bound(r: &mut Rng) -> i64 {
     match r.below(10) {
         0..=3 => r.range(2, 64),
@@ -420,6 +496,7 @@ fn check_ld_result(family: &'static str, index: u64, t: &mut Tally, site: &str, 
 fn sub_limit_phase(family: &'static str, index: u64, r: &mut Rng, t: &mut Tally, keep: bool) -> (bool, u64) {
     let c = ctx();
     // the phase: rational with up to 61-bit denominator, or made from a float
+    let mut long_cf_bounds: Vec<i64> = vec![];
     let (p, x) = if r.chance(0.25) {
         let f = gen_float(r);
         match guarded(|| Phase::from_f64(f)) {
@@ -428,6 +505,15 @@ fn sub_limit_phase(family: &'static str, index: u64, r: &mut Rng, t: &mut Tally,
                 None => return (false, 0),
             },
             Err(_) => return (false, 0), // judged in the float family
+        }
+    } else if r.chance(0.12) {
+        let bits = *r.pick(&[20u32, 40, 48, 56, 61]);
+        let (n, d, ks) = gen_long_cf(r, bits);
+        long_cf_bounds = ks;
+        t.add("limit_denominator:long-continued-fraction");
+        match make_checked(family, index, t, r, n, d) {
+            Some(v) => v,
+            None => return (false, 0),
         }
     } else {
         let max_log = *r.pick(&[8u32, 12, 20, 30, 45, 61]);
@@ -453,9 +539,21 @@ fn sub_limit_phase(family: &'static str, index: u64, r: &mut Rng, t: &mut Tally,
             _ => xd / 2 + 1,
         })
         .clamp(2, 1 << 40)
+    } else if !long_cf_bounds.is_empty() && r.chance(0.8) {
+        // the denominator of a late convergent (give or take one), or anything below it
+        let i = long_cf_bounds.len() - 1 - r.below(long_cf_bounds.len().min(24));
+        let k = long_cf_bounds[i];
+        (match r.below(4) {
+            0 => k,
+            1 => k - 1,
+            2 => k + 1,
+            _ => r.range(2, k.max(3)),
+        })
+        .max(2)
     } else {
         gen_bound(r)
     };
+    t.add(&format!("limit_denominator:bound-bits:{:02}", (64 - (m as u64).leading_zeros()).div_ceil(8) * 8));
     let h = hash_str(&format!("ld:{x}:{m}"));
     let input = json!({"phase": qj(&x), "max_denom": m});
     match guarded(|| p.limit_denominator(m)) {
